@@ -105,6 +105,16 @@ func evaluateCondition(skel *Skeleton, orig []byte, cond *Condition) error {
 		return fmt.Errorf("condition: %w", err)
 	}
 
+	// NaN is unordered: it is neither equal to, greater than nor less than anything.
+	if isNaNLeaf(raw) || isNaNLeaf(cond.Threshold) {
+		if cond.Op == CondNotEqual {
+			return nil
+		}
+		if cond.Op <= CondLessThanOrEqual {
+			return ErrConditionNotMet
+		}
+	}
+
 	met := false
 	switch cond.Op {
 	case CondEqual:
@@ -192,6 +202,15 @@ func compareLeafBytes(a, b []byte) (int, error) {
 		return 0, nil
 	}
 	return 0, fmt.Errorf("%w: unsupported leaf type for comparison", ErrTypeMismatch)
+}
+
+// isNaNLeaf reports whether raw is a msgpack float leaf holding NaN.
+func isNaNLeaf(raw []byte) bool {
+	if len(raw) == 0 || !isFloatCode(raw[0]) {
+		return false
+	}
+	_, _, f, _, err := readNumericLeaf(raw)
+	return err == nil && f != f
 }
 
 func cmpInt64(a, b int64) int {
